@@ -1,5 +1,6 @@
 PROP = {
     "thm": "Umya.Thm.C14",
+    "frame_shared_state": True,
     "harness": "c14",
     "level": "proof",
     "stateful": False,
